@@ -29,10 +29,11 @@ def run(ctx):
     bg = ThreadPoolExecutor(max_workers=2)
     f_dev = bg.submit(T.dev_runs, ctx, DEVS if thorough else dict(list(DEVS.items())[:QUICK_DEVS]))
     f_rec = bg.submit(T.record_and_validate, ctx, ENGINE, *REC[thorough], REC_WHAT)
-    results = T.run_families(ctx, FAMILIES, ctx.tier, workers=6 if thorough else 4, timeout=3000 if thorough else 600)
+    families = T.dev_subset(FAMILIES)   # developer knob VERIF_TRACKER_FAMILIES, normally all
+    results = T.run_families(ctx, families, ctx.tier, workers=6 if thorough else 4, timeout=3000 if thorough else 600)
     stats = {}
     drift_total = 0
-    for fam in FAMILIES:
+    for fam in families:
         res = results[fam]
         ctx.tlc_ok(res, f"MCTracker {fam}")
         if res.violated:
@@ -54,7 +55,7 @@ def run(ctx):
     f_dev.result()
     end, strict_rejected = T.merge_recorded(ctx, f_rec.result())
     bg.shutdown()
-    ctx.cov["exhaustive"] = not ctx.violations
+    ctx.cov["exhaustive"] = not ctx.violations and families == FAMILIES
     ctx.cov["samples"] = [{"family": f, **{k: stats[f][k] for k in ("cases", "fan", "merged_states", "conflict_states")}} for f in stats] + ctx.cov["samples"]
     ctx.assumptions += [
         "'the identity threshold' is the threshold of the document the merge op that forms the quorum refers to; a delegate is a "
